@@ -112,12 +112,16 @@ def _integral_func(prog, rep, outer_q, tag):
         raise AnalysisError(f"{outer_q}: expected exactly one integrand handed to nquad, found {[show(i)[:60] for i in integrands]}")
     it = next(iter(integrands))
     actual = {}
+    factory = None
     if it[0] == "call" and it[1][0] == "func" and it[1][1] in prog.functions:
         factory = prog.functions[it[1][1]]
+    elif it[0] == "call" and it[1][0] == "attr" and it[1][1] == SELF and outer.cls is not None:
+        factory = prog.lookup_method(outer.cls, it[1][2])   # a factory method of the model
+    if factory is not None:
         bf_ = builder(prog, factory, inline=False)
         frets = [s for s in cfg_of(factory).all_stmts() if isinstance(s, ast.Return)]
         inner = bf_.term(frets[0].value, frets[0]) if len(frets) == 1 else None
-        bound = bind(it, factory.positional_params)
+        bound = bind(it, [p_ for p_ in factory.positional_params if not (p_ == "self" and factory.cls is not None and not factory.is_static)])
         if inner is None or inner[0] != "func" or bound is None:
             raise AnalysisError(f"{outer_q}: integrand factory {factory.qualname} not understood")
         actual = {("param", k): v for k, v in bound.items()}
@@ -135,7 +139,12 @@ def _integral_func(prog, rep, outer_q, tag):
         raise AnalysisError(f"{q}: the integrand must be a *args wrapper with one return")
     t = b.term(ret[0].value, ret[0])
     if actual:
-        t = subst(t, actual)
+        # the closure sees the factory's parameters as free variables (a marked 'param' term): bind every spelling
+        full = dict(actual)
+        for s_ in walk(t):
+            if s_[0] == "param" and len(s_) > 2 and ("param", s_[1]) in actual:
+                full[s_] = actual[("param", s_[1])]
+        t = subst(t, full)
     nd = ("attr", SELF, "n_dim")
     ao = None
     ok = False
@@ -194,6 +203,23 @@ def _has_del(fn, name, idx_term, b):
                 if isinstance(t, ast.Subscript) and isinstance(t.value, ast.Name):
                     if b.term(t.slice, st) == idx_term and b.term(t.value, st) == rng:
                         return st
+    # ... or in a private helper of the class that is called with that index (the order built by a helper)
+    prog_ = b.prog
+    for st in cfg_of(fn).all_stmts():
+        for n in ast.walk(st) if isinstance(st, (ast.Assign, ast.Expr, ast.Return)) else []:
+            if isinstance(n, ast.Call) and isinstance(n.func, ast.Attribute) and isinstance(n.func.value, ast.Name) and n.func.value.id == "self" and fn.cls is not None:
+                h = prog_.lookup_method(fn.cls, n.func.attr)
+                if h is None or h is fn or not h.name.startswith("_") or len(n.args) != 1 or b.term(n.args[0], st) != idx_term:
+                    continue
+                hp = [p_ for p_ in h.positional_params if p_ != "self"]
+                if len(hp) != 1:
+                    continue
+                hb = builder(prog_, h, inline=False)
+                for hs in cfg_of(h).all_stmts():
+                    if isinstance(hs, ast.Delete):
+                        for t in hs.targets:
+                            if isinstance(t, ast.Subscript) and isinstance(t.value, ast.Name) and hb.term(t.slice, hs) == P(hp[0]) and hb.term(t.value, hs) == rng:
+                                return hs
     return None
 
 
